@@ -82,7 +82,7 @@ def req_to_json(o):
                 'write_address': o.write_address, 'write_count': o.write_count,
                 'write_byte_count': o.write_byte_count, 'write_registers': nats(o.write_registers)}
     if isinstance(o, dm.DiagnosticStatusRequest):
-        return {'t': 'diag', 'sub': o.sub_function_code, 'message': diag_msg(o.message)}
+        return {'t': 'diag', 'sub': o.sub_function_code, 'message': diag_msg(o.message), 'cls': type(o).__name__}
     if isinstance(o, om.ReadExceptionStatusRequest):
         return {'t': 'readExceptionStatus'}
     if isinstance(o, om.GetCommEventCounterRequest):
@@ -136,7 +136,7 @@ def resp_to_json(o):
     if isinstance(o, rrm.ReadWriteMultipleRegistersResponse):
         return {'t': 'readWrite', 'registers': nats(o.registers)}
     if isinstance(o, dm.DiagnosticStatusResponse):
-        return {'t': 'diag', 'sub': o.sub_function_code, 'message': diag_msg(o.message)}
+        return {'t': 'diag', 'sub': o.sub_function_code, 'message': diag_msg(o.message), 'cls': type(o).__name__}
     if isinstance(o, om.ReadExceptionStatusResponse):
         return {'t': 'readExceptionStatus', 'status': o.status}
     if isinstance(o, om.GetCommEventCounterResponse):
